@@ -98,6 +98,16 @@ func Load(scen *gen.Scenario, seed int64) (r *Runner, err error) {
 	return &Runner{Scen: scen, Src: src, SA: sa, Eng: eng, Budget: 1000 * (maxSteps + 10)}, nil
 }
 
+// LoadReusing prepares another execution of the scenario over the session assets and the engine of an earlier one — as a
+// host does, which keeps assets for many sessions — from fresh sources in the state they had when prev was loaded.
+func LoadReusing(prev *Runner, seed int64, loaded SourceState) *Runner {
+	src := NewSources(seed)
+	src.Coarse = int64(prev.Scen.Coarse)
+	src.Install()
+	src.Restore(loaded)
+	return &Runner{Scen: prev.Scen, Src: src, SA: prev.SA, Eng: prev.Eng, Budget: prev.Budget}
+}
+
 func (r *Runner) missing(ref assets.Reference, err error) {
 	r.Missing = append(r.Missing, fmt.Sprintf("%s", ref))
 }
